@@ -543,7 +543,7 @@ func ReturnFacts(fn *ssa.Function, idx int, want func(v ssa.Value) (match bool, 
 	var all [][]string
 	for _, b := range fn.Blocks {
 		ret, ok := b.Instrs[len(b.Instrs)-1].(*ssa.Return)
-		if !ok || idx >= len(ret.Results) {
+		if !ok || idx >= len(ret.Results) || deadRecover(b) {
 			continue
 		}
 		collectReturn(RetResults(ret)[idx], b, nil, want, &all, 4)
